@@ -129,7 +129,7 @@ def run(ck):
     ck.note("crystalStars.zeroclean replaced by its vectorised equivalent; equivalence re-checked bitwise on the small cases")
     zc = {"orig": orig_zeroclean, "fast": _fastclean, "checked": 0}
     rng = ck.rng
-    ncrys = ck.n(10, 130)
+    ncrys = ck.n(14, 130)
     max_states = ck.n(200, 520)
     certs, certmeta, certseen = [], [], set()
     skipped = {"nonpercolating": 0, "construct-failed": 0, "geometry": 0, "too-large": 0}
@@ -143,7 +143,9 @@ def run(ck):
         maxerr[name] = max(maxerr.get(name, 0.), float(e))
         return float(e)
 
-    for label, crys, chem in gen.pool(rng, ncrys, random_frac=0.55):
+    # fixed corpus first (polar sites, two-fold pair stabilisers, 2-D polar), then the random pool
+    corpus = [(nm,) + gen.named(nm) for nm in ("polar", "hcp-oct-tet", "rect-polar2d")]
+    for label, crys, chem in itertools.chain(corpus, gen.pool(rng, ncrys, random_frac=0.55)):
         try:
             net = gen.percolating_network(crys, chem, rng, maxjumps=ck.n(30, 60))
         except Exception:
@@ -400,7 +402,7 @@ def expansions(ck, crys, chem, S, V, Phi, sts, pos, jumps, ops, nsites, N, nr, e
                                 "projection of -sum dimFix(Stab x) rate(x) by %.3g" % eo))
                 bare = Phi.T @ blockI(n, dim, np.diag(E0bare)) @ Phi
                 gap = float((np.diag(bare)[osrows] - np.diag(got)[osrows]).min())
-                err("om2-originstate-regularisation-gap(min)", -gap)      # recorded only; > 0 means not singular
+                ck.extra["origin_state_min_gap_to_bare_value"] = min(ck.extra.get("origin_state_min_gap_to_bare_value", 1e300), gap)
                 ck.extra["origin_state_cases"] = ck.extra.get("origin_state_cases", 0) + 1
                 if gap <= 1e-10: ck.extra["origin_state_cases_at_bare_value"] = ck.extra.get("origin_state_cases_at_bare_value", 0) + 1
                 diff = diff[~mask]
